@@ -7,6 +7,7 @@ from .. import build, cppdrv, expr as E, gen, monitors
 from . import common as K
 
 ID = "C13"
+REACH_TARGETS = [('common.named_vector', 'formak.common:named_vector'), ('common.named_covariance', 'formak.common:named_covariance')]
 LEVEL = "exploration"
 RULE = ("ctor units: for State / Control / Calibration / Covariance / Reading classes of random filters each name "
         "is set alone to a distinctive value and located through the class's declared layout; defaults (0, unit "
